@@ -318,7 +318,7 @@ func (fw *c07FSWorld) runLocal(h c06Hop, doProbe bool) (c06Obs, bool) {
 // before they reach the FileStorage. fw.cnt is the number of Storage calls made.
 func (fw *c07FSWorld) runLocalPlan(h c06Hop, plan *c06Plan, doProbe bool) (c06Obs, bool) {
 	w := fw.c06World
-	w.orc = &h.Orc
+	w.orc, w.more = &h.Orc, h.More
 	fw.evs = nil
 	w.sink = func(kind, key string) { fw.record(c07FSEvent{K: kind, Key: key}) }
 	st := &c07FSStore{fs: &certmagic.FileStorage{Path: fw.dir}}
@@ -344,9 +344,17 @@ func (fw *c07FSWorld) runLocalPlan(h c06Hop, plan *c06Plan, doProbe bool) (c06Ob
 	var err error
 	switch h.Op {
 	case "obtain":
-		err = cfg.ObtainCertSync(ctx, w.subj.Spelling)
+		if len(h.More) > 0 {
+			err = cfg.ObtainCertAsync(ctx, w.subj.Spelling)
+		} else {
+			err = cfg.ObtainCertSync(ctx, w.subj.Spelling)
+		}
 	case "renew":
-		err = cfg.RenewCertSync(ctx, w.subj.Spelling, h.Force)
+		if len(h.More) > 0 {
+			err = cfg.RenewCertAsync(ctx, w.subj.Spelling, h.Force)
+		} else {
+			err = cfg.RenewCertSync(ctx, w.subj.Spelling, h.Force)
+		}
 	case "manage":
 		err = cfg.ManageSync(ctx, []string{w.subj.Spelling})
 	case "revenv":
